@@ -23,6 +23,8 @@ import traceback
 import types
 from pathlib import Path
 
+from . import srcio
+
 RECMOD = str(Path(__file__).resolve().parent / "recmod")
 if RECMOD not in sys.path:
     sys.path.insert(0, RECMOD)
@@ -82,8 +84,7 @@ def run_session(files: dict, flags, *, keep_dir: str | None = None, config: dict
         for name, content in files.items():
             p = tmp / name
             p.parent.mkdir(parents=True, exist_ok=True)
-            with open(p, "w", encoding="utf-8", newline="") as f:
-                f.write(content)
+            srcio.write_source(p, content)
         cfg = _config.Config()
         for k, v in (config or {}).items():
             setattr(cfg, k, v)
@@ -107,7 +108,7 @@ def run_session(files: dict, flags, *, keep_dir: str | None = None, config: dict
                     loaded.append(filename.stem)
                     try:
                         with _silence():
-                            exec(compile(filename.read_text("utf-8"), str(filename), "exec"), g)
+                            exec(compile(filename.read_bytes(), str(filename), "exec"), g)
                     except BaseException as e:  # noqa
                         obs["import_error"] = [type(e).__name__, str(e)[:300]]
                         continue
@@ -156,9 +157,8 @@ def run_session(files: dict, flags, *, keep_dir: str | None = None, config: dict
             if p.is_file() and "__pycache__" not in p.parts:
                 rel = str(p.relative_to(tmp))
                 try:
-                    with open(p, encoding="utf-8", newline="") as f:
-                        out[rel] = f.read()
-                except UnicodeDecodeError:
+                    out[rel] = srcio.read_source(p) if p.suffix == ".py" else p.read_bytes().decode("utf-8")
+                except (UnicodeDecodeError, SyntaxError):
                     out[rel] = {"bytes": p.read_bytes().hex()}
         obs["files"] = out
         return obs
@@ -176,6 +176,8 @@ def run_session(files: dict, flags, *, keep_dir: str | None = None, config: dict
 def snapshot_args(source: str, fname: str = "snapshot"):
     """(lineno, col, source text of the argument or None, ast node or None) of every ``snapshot(...)``
     call in textual order - the harness' own, independent way of finding the arguments."""
+    if source.startswith("\ufeff"):
+        source = source[1:]             # a byte order mark is not part of the program text
     tree = ast.parse(source)
     calls = [n for n in ast.walk(tree)
              if isinstance(n, ast.Call) and isinstance(n.func, ast.Name) and n.func.id == fname]
